@@ -68,7 +68,7 @@ def size (c : Cont V) : Nat := c.list.length + c.named.length
 
 /-- keys in `Iter2(list, named)` order: list indexes, then the named keys -/
 def members (c : Cont V) : List Key :=
-  (List.range c.list.length).map (fun i => Key.int i) ++ c.named.map (·.1)
+  (List.range c.list.length).map (fun i => Key.int (i : Nat)) ++ c.named.map (·.1)
 
 def findIdx [DecidableEq V] (v : V) : List V → Nat → Option Nat
   | [], _ => none
@@ -81,7 +81,7 @@ def findNamed [DecidableEq V] (v : V) : Named V → Option Key
 /-- `Find`: key of the first occurrence (list first, then some named member) -/
 def find [DecidableEq V] (c : Cont V) (v : V) : Option Key :=
   match findIdx v c.list 0 with
-  | some i => some (.int i)
+  | some i => some (.int (i : Nat))
   | none => findNamed v c.named
 
 /-! ### mutation (the parts after `mustBeMutable`) -/
